@@ -95,6 +95,18 @@ def run(ctx):
             ctx.violation("E1", e["class"], "core-needs-ext:%s" % cmd, "core command %s demands extension %r" % (cmd, e["extension"]),
                           file=R.cmod.relpath, line=e["lineno"])
     ctx.need("E1", "reference bindings", n, 39)
+    # a tag bound to an extension through `extension_values` is refused by the value helper only if the plain `values` list does not
+    # accept it first
+    for cname, e in sorted(table.items()):
+        if e["abstract"]:
+            continue
+        for sdef in e["args_definition"] or []:
+            both = sorted(set(v.lower() for v in sdef.get("values") or []) & set(k.lower() for k in (sdef.get("extension_values") or {})))
+            if both:
+                ctx.violation("E1", e["class"], "value-listed-twice:%s%s" % (e["name"], both[0]), "%s of %s is listed both in `values` and in "
+                              "`extension_values` of slot %s: the plain list accepts it before the extension is looked at" % (
+                                  both[0], e["name"], sdef.get("name")), file=R.cmod.relpath, line=e.get("lineno"),
+                              witness="`%s %s ...` is accepted without the require" % (e["name"], both[0]))
 
     gates(ctx, R)
 
@@ -320,6 +332,24 @@ def gates(ctx, R):
         for a in walk_no_nested(cb.node):
             if isinstance(a, ast.Assign) and any("arguments" in norm(x) for x in ast.walk(a.value) if isinstance(x, (ast.Subscript, ast.Attribute))):
                 arg_vars |= {t.id for t in a.targets if isinstance(t, ast.Name)}
+        # every written name is looked at: the loop over the names is not left early
+        for lp in walk_no_nested(cb.node):
+            if isinstance(lp, ast.For):
+                early = [x for x in walk_no_nested(lp) if isinstance(x, (ast.Return, ast.Break))]
+                if early:
+                    ctx.violation("E6", cb, "registry-loop-left-early", "the loop over the required names is left by `%s`: the names after that "
+                                  "point are not loaded" % norm(early[0])[:20], node=early[0],
+                                  witness='`require ["fileinto", "fileinto", "copy"];` does not load copy')
+                else:
+                    ctx.holds("E6", "%s visits every required name" % cb.qualname)
+        # the list iterated is the argument itself (or the argument wrapped in a list): nothing may re-split or re-derive the names
+        for a in walk_no_nested(cb.node):
+            if isinstance(a, ast.Assign) and any(isinstance(t, ast.Name) and t.id in arg_vars for t in a.targets):
+                for c_ in ast.walk(a.value):
+                    if isinstance(c_, ast.Call) and call_name(c_) not in ("strip", "list", "tuple", "isinstance", "type"):
+                        ctx.violation("E6", cb, "registry-names-rederived:%s" % call_name(c_), "the names to load are re-derived with %s: a single written "
+                                      "name can become several" % norm(c_)[:50], node=a,
+                                      witness='`require "fileinto,copy";` loads two extensions that no require names')
         loopvars = {lp.target.id for lp in walk_no_nested(cb.node) if isinstance(lp, ast.For) and isinstance(lp.target, ast.Name)
                     and any(isinstance(x, ast.Name) and x.id in arg_vars for x in ast.walk(lp.iter))}
         for f_, st_ in ws:
